@@ -1,0 +1,22 @@
+//go:build verif
+
+package fp
+
+// UnsafeGoMap.Iterator (map.go) copies the entries into a private slice before it returns: the iterator is a
+// snapshot of the map at the call.  Used by mutable.CopyOnWriteMap.Iterator (C19).  Keys are converted back with
+// k.(K): every key must have been stored as a K.
+
+//@ func (UnsafeGoMap).Iterator(r) result
+//@   prop C19 C04
+//@   requires forall q any :: verifspec.Has(r, q) ==> unsafeKeyTyped[K](q)
+//@   ensures Unchanged()
+//@   tag snapshotWritesNothingShared
+//@   loop 0 invariant Fresh(seq) && len(seq) == verifspec.VisitedCount(r)-1 && verifspec.VisitedCount(r) <= len(r) && verifspec.Visited(r, k) && verifspec.Has(r, k)
+//@   loop 0 decreases len(r) - verifspec.VisitedCount(r)
+//
+//@ ghost
+//@ func unsafeKeyTyped[K any](q any) bool {
+//@ 	_, ok := q.(K)
+//@ 	return ok
+//@ }
+//@ end
